@@ -260,7 +260,12 @@ def run(ctx):
                         rhs = ex_
                 ctx.check(okm, "metric:kill_by_pressure:mean-of-10s-and-60s", "value-shape", l.loc(w),
                           "key = sec_10/2 + sec_60/2", "key = " + rhs)
-                ctx.check(src is not None, "metric:kill_by_pressure:resource-case", "switch_table", l.loc(w), "mean computed under the configured resource's case", "mean assigned outside a resource case")
+                where_ = ""
+                if src is None:
+                    # what the pressure local holds, so that a helper standing between the switch and the mean is named in the finding
+                    inits_ = [l.text(v_["init"]) for d_ in l.all("decl") for v_ in l.nodes[d_].get("vars", []) if v_["name"].startswith("pressure") and v_.get("init") is not None and v_.get("init", -1) >= 0]
+                    where_ = " (the pressure read is %s)" % "; ".join(inits_)[:160] if inits_ else ""
+                ctx.check(src is not None, "metric:kill_by_pressure:resource-case", "switch_table", l.loc(w), "mean computed under the configured resource's case", "mean assigned outside a resource case" + where_)
             if keyvar is not None:
                 for r in returns(l):
                     ctx.check(ret_text(l, r) == keyvar, "metric:kill_by_pressure:returns-mean", "return_table", l.loc(r), "the key returned is the mean", "returns " + ret_text(l, r))
